@@ -20,19 +20,37 @@ CHECK = {'level': 'exploration',
          '(watchdog + Get before/after) with a full evaluation at least every 8 or 48 calls. Fixed regression scenarios (TestRegress...) incl. 48 '
          'senders whose pooled transactions all turn invalid before one pass. Non-trivial = history that reached the pool or a per-sender '
          'limit, or performed a replacement, or a promotion followed by a demotion (concurrent case: limit reached or processables at the end). '
-         'Distinct by digest of the full operation history',
+         'Distinct by digest of the full operation history. Extension collaborator faults / event subscribers (all three history classes): '
+         'the connection mock fails Publish for drawn Adds (fresh slot, replacement with sufficient fee, first transaction of a sender, '
+         'higher fee priority into a full pool, lower nonce into a full sender list; directly and through the gossip handler; large-scale: '
+         '10/50/100 % of the Adds of a phase) - the invariants must hold whatever Add answers (pooled everywhere or nowhere), the return value '
+         'is not judged after a failed Publish; verifier answers that are slow (50 us) or change between consultations (ok-then-invalid, '
+         'err-then-ok); 0-3 subscribers per history of EventTransactionNew / EventTransactionAnnouncement / both in one goroutine (the '
+         'engine\'s own shape), each draining only or calling Get / GetAll / GetProcessable / Remove / a mix per event, with or without a '
+         'pause of 100-300 us; transactions also arrive as gossip announcements through the validator and handler the pool registered '
+         '(single, 2-4 in one watched call, large-scale: 4-100 in one call or 30/100 % of a phase; known / duplicate / malformed payloads: '
+         'empty, garbage, truncated, trailing bytes, short public key, no signature), getTransactions RPC requests through the registered '
+         'handler (no body, known ids, unknown ids, garbage); every history ends with End(). Fixed scenarios TestRegressPublishFails and '
+         'TestRegressSubscriberCallsBack (3 subscriber line-ups) in every tier',
  'level_text': 'Invariant oracle evaluated on an internal snapshot (three indexes + per-sender lists) and on the public getters after every pool call '
                'of generated histories: index agreement (I1), size bounds (I2), one transaction per sender/nonce and the replacement fee rule (I3), '
                'processable set ascending, gap-free, member of the list and answered ok by the verifier when it became processable (I4), Add/Remove '
                'results agree with membership (I5); liveness by watchdog with goroutine-dump evidence (every goroutine inside the pool parked on its '
-               'locks, a WaitGroup or a channel send executed by a pool function). Small histories (3-4 senders, limits 1-6) and large-scale '
-               'histories (up to 150 senders, 400 pooled, 65 per sender). Sampled, not exhaustive.',
+               'locks, a WaitGroup, a channel send executed by a pool function, or an event send of pkg/event called by the pool while every '
+               'registered subscriber is itself parked inside the pool or waiting in its receive). Small histories (3-4 senders, limits 1-6) '
+               'and large-scale histories (up to 150 senders, 400 pooled, 65 per sender), both with failing Publish calls, event subscribers '
+               'that call back into the pool and the gossip / RPC entry points. Sampled, not exhaustive.',
  'level_note': 'Which transaction is evicted / rejected at a full pool is not asserted (any choice that keeps the invariants passes). Concurrent '
                'phase fixes the workload, not the Go schedule. On a tree where the listed known findings are present their triggers are avoided '
                'by construction (pool never filled, no successful replacement / per-sender eviction, no promotion pass while a pending answer is '
                'pooled, nothing touching a processable nonce during a pass), so those paths are only explored once the proposed fixes are in.',
  'technique': 'property-based state-machine testing (rapid) with invariant oracle, watchdog and race detector',
- 'assumptions': ['Publish on the connection never fails (an Add that returns false after a failed announcement is outside the statement)',
+ 'assumptions': ['after a failed Publish the return value of Add is not judged (the statement does not fix it; the tree pools the transaction and '
+                 'answers false); the transaction must be pooled in every index or in none',
+                 'subscribers always take the messages sent to them (a subscriber that stops receiving blocks the announcing goroutine by '
+                 'design of pkg/event; that is not a pool lock); a transaction a Remove-subscriber has set out to remove may leave the pool at '
+                 'any moment and is exempt from the before/after comparisons of that step',
+                 'gossip payloads reach the announcement handler only if the validator the pool registered accepts them (as in pkg/p2p)',
                  'promotion passes never overlap each other (TransactionPool.Start is the only caller of reorg)',
                  'an empty per-sender list left in perAccount counts as index disagreement',
                  '"passed verification" = the scripted ABI answered Ok (not Pending) for that transaction in the call that made it processable'],
